@@ -821,7 +821,6 @@ func ReachableWithout(from Point, forbidden []IfEdge, target func(ssa.Instructio
 	return (&Walk{EdgeOK: Forbid(forbidden), Target: target}).From(from, nil)
 }
 
-
 // RetCase is one way a function returns: a Return instruction and, when its operands are Phis of the return block
 // (recursively: of the merge blocks feeding it), the chain of incoming edges with the Phi operands resolved.
 type RetCase struct {
